@@ -40,3 +40,15 @@ package webpmeta
 //@   ensures [C18] consumed-vp8l: err == nil && be32(r, 12) == 0x5650384C ==> r.pos == 25
 //@   ensures [C18] consumed-vp8: err == nil && be32(r, 12) == 0x56503820 ==> r.pos == 30
 //@   ensures [C07,C09] error-means-no-metadata: err != nil ==> md == nil
+
+// ---- C07/C19: Load composes TeeReader / bufio / MultiReader (assumed io contracts) ----
+
+//@ func extractMetadata
+//@   modular
+//@   assumes [C19] deterministic: (err == nil) == old(ufc("ok_webp", r)) && (err == nil ==> md != nil && md.PixelWidth == old(ufc("w_webp", r)) && md.PixelHeight == old(ufc("h_webp", r)) && md.BitsPerComponent == old(ufc("d_webp", r)))
+
+//@ func Load
+//@   ensures [C07,C19] stream-non-nil: imgStream != nil
+//@   ensures [C07,C19] replays-input: stream_len(imgStream) == old(r.avail) && (forall j int :: 0 <= j && j < old(r.avail) ==> stream_at(imgStream, j) == u8(r, old(r.pos) + j))
+//@   ensures [C07] source-error-resurfaces: stream_err(imgStream) == stream_err(r)
+//@   ensures [C18] read-ahead-bounded: true
